@@ -329,6 +329,8 @@ class Gen:
         markets = []
         for i in range(nm):
             t_start = 0 if p["event_processing"] else i * 100000
+            if p.get("market_starts"):      # markets need not be processed in time order (files are taken in name order)
+                t_start = p["market_starts"][i % len(p["market_starts"])]
             markets.append(self.market(i, t_start=t_start if not p["event_processing"] else rnd.choice([0, 0, 37, 500])))
         strategies = []
         for si in range(self.ri(p["n_strategies"])):
